@@ -63,9 +63,37 @@ Definition e_ctor (v : val) : val :=     (* Reply(code, text): [0; code; raw_mes
   | _ => verr
   end.
 
+(* setter operations on a fresh Reply(): [[tag; arg]; ...], tag 0 code / 1 message / 2 ESC str ([] = None) / 3 ESC False.
+   -> [code; message shown; [esc]; wire; raised flags; 1 if _esc is False] *)
+Definition rop_of (v : val) : rop :=
+  match v with
+  | VL [VN 0; VB c] => ROCode c
+  | VL [VN 1; VB m] => ROMsg m
+  | VL [VN 2; VB e] => ROEsc e
+  | _ => ROEscFalse
+  end.
+Fixpoint ops_trace (r : reply) (ops : list rop) : reply * list val :=
+  match ops with
+  | [] => (r, [])
+  | o :: ops' =>
+      let raised := match rop_apply udigit uspace r o with Some _ => 0 | None => 1 end in
+      let '(r', fl) := ops_trace (rop_step udigit uspace r o) ops' in
+      (r', VN raised :: fl)
+  end.
+Definition e_ops (v : val) : val :=
+  match v with
+  | VL ops =>
+      let '(r, fl) := ops_trace fresh_reply (map rop_of ops) in
+      VL [VB (r_code r); VB (get_message r);
+          match get_esc r with Some e => VL [VB e] | None => VL [] end;
+          VB (wire_of r); VL fl;
+          VN (match r_esc r with EscFalse => 1 | _ => 0 end)]
+  | _ => verr
+  end.
+
 Definition entries : list entry :=
   [("c17_wire"%string, e_wire); ("c17_getmsg"%string, e_getmsg); ("c17_recv"%string, e_recv);
    ("c17_norm"%string, e_norm); ("c17_udigit"%string, e_udigit); ("c17_uspace"%string, e_uspace);
    ("utf8_dec"%string, e_utf8_dec); ("utf8_enc"%string, e_utf8_enc);
    ("c17_msgpat"%string, e_msgpat); ("c17_escpat"%string, e_escpat); ("c17_codepat"%string, e_codepat);
-   ("c17_ctor"%string, e_ctor)].
+   ("c17_ctor"%string, e_ctor); ("c17_ops"%string, e_ops)].
